@@ -317,7 +317,7 @@ func c13Message(c *fw.Case, n *chain.Node, dk *distEnv, mc gen.MinterConfig, aut
 		var minters []*minttypes.Minter
 		start := cur.StartTime
 		label := ""
-		switch r.Intn(8) {
+		switch r.Intn(9) {
 		case 0: // brand-new valid configuration (may or may not contain the current period)
 			nc := gen.Minters(r, "uc4e", 30)
 			minters, start = nc.Params.Minters, nc.Params.StartTime
@@ -417,6 +417,26 @@ func c13Message(c *fw.Case, n *chain.Node, dk *distEnv, mc gen.MinterConfig, aut
 				minters = append(minters, &cp)
 			}
 			label = "first-end-not-after-start"
+		case 7: // the current period has begun; the end of the one before it moves into the future again
+			idx := -1
+			for i, m := range cur.Minters {
+				if m.SequenceId == st.SequenceId {
+					idx = i
+				}
+			}
+			if idx < 1 {
+				return nil, ""
+			}
+			shift := now.Add(time.Duration(1+r.Intn(2000))*time.Minute).Sub(*cur.Minters[idx-1].EndTime)
+			for i, m := range cur.Minters {
+				cp := *m
+				if i >= idx-1 && cp.EndTime != nil {
+					t := cp.EndTime.Add(shift)
+					cp.EndTime = &t
+				}
+				minters = append(minters, &cp)
+			}
+			label = "previous-end-moved-into-future"
 		default: // structurally invalid
 			minters = []*minttypes.Minter{nil}
 			if r.Intn(2) == 0 {
